@@ -235,8 +235,8 @@ theorem validate_silent_save (o : Obj) (os : OStream) (r : SaveRes) (hdr : Bytes
     (hn : o.secs.length < 65536)
     (h0 : ∀ (i : Nat) (s : SecBuf), o.secs[i]? = some s → s.Occ → s.index ≠ 0)
     (hnull0 : ∀ s ∈ o.secs, s.stype = BitVec.ofNat 32 SHT_NULL → s.size = 0)
-    (hnw : layoutNW o hdr = true) (hnd : (o.segs.map (·.index)).Nodup)
-    (hdom : layoutDomB false false o hdr = true) : validate r.obj = [] :=
+    (hnw : layoutNW (preSave o) hdr = true) (hnd : (o.segs.map (·.index)).Nodup)
+    (hdom : layoutDomB false false (preSave o) hdr = true) : validate r.obj = [] :=
   validate_silent r.obj (C04.save_layoutOk o os r hdr hs hok hh hn h0 hnull0 hnw hnd hdom)
 
 /-- non-vacuity: `C04.exObj` (two members of a PT_LOAD, one with an explicit address, and two
